@@ -329,7 +329,7 @@ CONFIG = {
                       "both equal the number-level expansions (Proofs/Recode). The three multiplication loops and four tables of scalarmult.go/tables.go "
                       "are written over an abstract group (Model/ScalarMultAlg.lean) and proved to compute k•Q, k•B and a•A+b•B in every commutative "
                       "group, with no table index out of range (Proofs/ScalarMultAlg; composed in Props/C14Mult). The recodings, loops and tables are "
-                      "hand-written models tied by (a) a statement-level pin of the 15 Go functions regenerated on every run (extract/cmd/skeleton with "
+                      "hand-written models tied by (a) a statement-level pin of the 16 Go functions regenerated on every run (extract/cmd/skeleton with "
                       "loop headers vs Proofs/SkelScalarMult, rfl), (b) execution: c14.dg runs the literal recoding model (scdriver) and the number-level "
                       "one (driver) against the Go recodings, c14.sm the multiplications against the RFC 8032 reference and math/big. "
                       "The coordinate-changing Go loops themselves are covered as well: Model/ScalarMultLit.lean transcribes scalarmult.go and tables.go "
@@ -340,7 +340,9 @@ CONFIG = {
                       "VarTimeDoubleScalarBaseMult return valid points standing for x•g, x•B and a•gA+b•B in the curve group, with no table lookup "
                       "out of range. Running that proved ScalarMult on the bytes of L in the kernel gives L•B = 0 in the curve group (Proofs/BaseOrder.order_B), "
                       "hence the verification equation of every honest signature: VarTimeDoubleScalarBaseMult(k, -A, S) with A = s•B and S = (r+k·s) mod L "
-                      "stands for r•B (honest_signature_point). PARTIAL: the transcription of scalarmult.go/tables.go is by hand (pinned and executed, not translated); "
+                      "stands for r•B (honest_signature_point). The RFC 8032 reference that the driver executes computes +, - and k• in the same group, and "
+                      "for every scalar the 32 bytes the translated Go pipeline writes for ScalarMult equal the reference's bytes (Proofs/EdRefGroup, "
+                      "EdEncode.scalarMult_bytes_agree). PARTIAL: the transcription of scalarmult.go/tables.go is by hand (pinned and executed, not translated); "
                       "SetBytesWithClamping is three byte operations followed by the translated scReduce (Model/Clamp.lean, proved to be the clamped integer mod L: "
                       "Proofs/Clamp); ModInverse (math/big) is not modelled. "
                       "Public keys must be 32 bytes (documented precondition).",
